@@ -91,6 +91,9 @@ func TestMain(m *testing.M) {
 	glue.SilenceKlog()
 	glue.LoadRegistry()
 	if rp := ev.LoadReplay(); rp != nil {
+		if rp.Phase == "two_loops" {
+			ev.RunReplay(rp, runTwoLoops)
+		}
 		if rp.Phase == "real_client" {
 			ev.RunReplay(rp, runRealClient)
 		}
